@@ -194,6 +194,19 @@ def make_cases(ctx):
             for curve in ("secp256r1", "secp384r1", "brainpoolP256r1"):
                 yield "pf-%d-%d-%s" % (ci, si, curve), dict(
                     kind="pfpair", cl=cl, sl=sl, curve=curve)
+    # the whole signature policy reduced to one family (all other lists
+    # emptied), on one side or on both
+    sigonly = [("sigonly_rsa", ["sha256", "sha384", "sha512"]),
+               ("sigonly_ecdsa", ["sha256", "sha384", "sha512"]),
+               ("sigonly_more", ["Ed25519", "Ed448"])]
+    for side in ("server", "client", "both"):
+        for dim, values in sigonly:
+            for v in values:
+                for w, win in enumerate((None, [(3, 3), (3, 3)],
+                                         [(3, 4), (3, 4)])):
+                    yield "d-%s-%s-%s-w%d" % (side, dim, v, w), dict(
+                        kind="dpair", side=side, dim=dim, value=v,
+                        window=win)
     for side in ("server", "client"):
         for dim, values in dims:
             for v in values:
@@ -625,7 +638,17 @@ def directed(P, rng):
     dim, v = P["dim"], P["value"]
     d = {dim: [v]}
     skey = "rsa"
-    if dim == "eccCurves":
+    if dim.startswith("sigonly_"):
+        d = {"rsaSigHashes": [], "ecdsaSigHashes": [], "dsaSigHashes": [],
+             "more_sig_schemes": []}
+        fam = dim.split("_")[1]
+        d[{"rsa": "rsaSigHashes", "ecdsa": "ecdsaSigHashes",
+           "more": "more_sig_schemes"}[fam]] = [v]
+        skey = {"rsa": "rsa", "ecdsa": {"sha256": "ecdsa256",
+                                        "sha384": "ecdsa384",
+                                        "sha512": "ecdsa521"}.get(v),
+                "more": v.lower()}[fam]
+    elif dim == "eccCurves":
         d["dhGroups"] = []
         d["keyExchangeNames"] = ["ecdhe_rsa"]
         d["keyShares"] = [v] if v in policy.TLS13_GROUPS else []
@@ -645,9 +668,13 @@ def directed(P, rng):
     hs = policy.build(d)
     try:
         hs.validate()
-    except ValueError:
-        return None
+    except ValueError as e:
+        # every value used here is from the documented domain of its
+        # setting and the pinned companions keep the object consistent
+        return e
     other = HandshakeSettings()
+    if P["side"] == "both":
+        return d, hs, d, policy.build(d), skey
     if P["side"] == "server":
         return {}, other, d, hs, skey
     return d, hs, {}, other, skey
@@ -730,8 +757,14 @@ def run_pair(ctx, cid, P):
         return run_pskpair(ctx, cid, P)
     if P["kind"] == "dpair":
         r = directed(P, rng)
-        if r is None:
-            ctx.count("directed_invalid")
+        if isinstance(r, Exception):
+            ctx.ev()
+            ctx.violation({"clause": "in_domain_rejected", "dim": P["dim"],
+                           "window": str(P.get("window"))},
+                          {"case": cid, "params": P, "error": repr(r)},
+                          "validate() refuses a restriction of the defaults "
+                          "to documented values (%s=%s): %r" % (
+                              P["dim"], P["value"], r))
             return
         cd, cs, sd, ss, skey = r
         ctx.count("directed_pairs")
